@@ -5,35 +5,96 @@ import PhyVerif.Lemmas.C19
 # C19 — event dispatch follows registration order, sender filters and silencing;
 #        a progress reporter announces completion exactly once per crossing
 Only property theorems + non-vacuity examples; proofs in `Lemmas/C19.lean`.
+`result : Call → Nat` is the behaviour of the callbacks (what a callback returns, as a function of
+its identity and of what it received); every theorem holds for every such behaviour.
 -/
 namespace PhyVerif.C19
 
 /-- For every history of connect / unconnect (by callback, by sender, by owner object) / reset /
-set_silent / nested silent contexts / emit: every emit's calls and returned value are exactly
+set_silent / nested silent contexts / emit: every emit's invocations and returned value are exactly
 what the specification derives from the history *before* it — the currently registered callbacks
 for that event whose sender filter is absent or equal, in registration order with `last` ones
-after all others, results in call order (first result after a single call with `single`), and
-nothing at all (returning None) while silenced, at any nesting depth. -/
-theorem emit_outcomes (ops : List EOp) (h : WellNested ops 0) :
-    erun EState.init ops = emitsSpec [] ops :=
-  Lemmas.emit_outcomes ops h
+after all others, each invoked with (sender, args, kwargs minus `single`), results in call order
+(first result after a single call with `single`), and nothing at all (returning None) while
+silenced, at any nesting depth.  (`set_silent` outside contexts; see `emit_outcomes_any_nesting`.) -/
+theorem emit_outcomes (result : Call → Nat) (ops : List EOp) (h : WellNested ops 0) :
+    erun result EState.init ops = emitsSpec result [] ops :=
+  Lemmas.emit_outcomes result ops h
+
+/-- The same for EVERY history Python can produce (`set_silent` also inside `silent()` contexts;
+the only hypothesis is that a context is left after it was entered — the real code cannot do
+otherwise, a context manager's exit follows its enter): an emit is silenced exactly when
+`silencedAfter` says so — the flag is what the most recent of {`set_silent(b)` ↦ b, enter ↦ True,
+exit ↦ the value just before the matching enter} assigned.  In particular
+`[connect c, enter, set_silent False, emit]` DOES call `c` (event.py:51, 127) and the exit then
+restores the value saved at the enter. -/
+theorem emit_outcomes_any_nesting (result : Call → Nat) (ops : List EOp) (h : ExitsMatched ops 0) :
+    erun result EState.init ops = emitsSpecG result [] ops :=
+  Lemmas.emit_outcomes_any_nesting result ops h
+
+/-- the silence flag after any such history -/
+theorem silent_flag_any_nesting (result : Call → Nat) (ops : List EOp) (h : ExitsMatched ops 0) :
+    (erunState result EState.init ops).silent = silencedAfter ops :=
+  Lemmas.silent_flag_any_nesting result ops h
 
 /-- After any well-nested history the emitter is silenced iff a silent context is still open or
 the last `set_silent` said so (leaving the contexts restores the previous state). -/
-theorem silent_restores (ops : List EOp) (h : WellNested ops 0) :
-    (erunState EState.init ops).silent = (decide ((depthFlag ops).1 > 0) || (depthFlag ops).2) :=
-  Lemmas.silent_restores ops h
+theorem silent_restores (result : Call → Nat) (ops : List EOp) (h : WellNested ops 0) :
+    (erunState result EState.init ops).silent = (decide ((depthFlag ops).1 > 0) || (depthFlag ops).2) :=
+  Lemmas.silent_restores result ops h
 
 /-- A silenced emit calls nothing and returns None, whatever is registered. -/
-theorem silenced_emit_none (st : EState) (e s : Nat) (single : Bool) (h : st.silent = true) :
-    emit st e s single = ⟨[], .none⟩ :=
-  Lemmas.silenced_emit_none st e s single h
+theorem silenced_emit_none (result : Call → Nat) (st : EState) (e : String) (s : Nat) (a : List Nat)
+    (kw : Kwargs) (h : st.silent = true) :
+    emit result st e s a kw = ⟨[], .none⟩ :=
+  Lemmas.silenced_emit_none result st e s a kw h
 
 /-- An un-silenced emit equals the specification on the registered list (order, filter, `last`,
-`single`). -/
-theorem emit_eq_spec (st : EState) (e s : Nat) (single : Bool) (h : st.silent = false) :
-    emit st e s single = emitSpec st.cbs e s single :=
-  Lemmas.emit_eq_spec st e s single h
+`single`, arguments, results). -/
+theorem emit_eq_spec (result : Call → Nat) (st : EState) (e : String) (s : Nat) (a : List Nat)
+    (kw : Kwargs) (h : st.silent = false) :
+    emit result st e s a kw = emitSpec result st.cbs e s a kw :=
+  Lemmas.emit_eq_spec result st e s a kw h
+
+/-- "passes the sender and arguments through unchanged": in every state, every invocation made by an
+emit carries the emit's sender, its positional arguments, and its keyword arguments minus the
+`single` entry (which `emit` pops, event.py:130). -/
+theorem emit_args_through (result : Call → Nat) (st : EState) (e : String) (s : Nat) (a : List Nat)
+    (kw : Kwargs) :
+    ∀ c ∈ (emit result st e s a kw).calls, c.sender = s ∧ c.args = a ∧ c.kwargs = forwarded kw :=
+  Lemmas.emit_args_through result st e s a kw
+
+/-- "returns the callbacks' results in call order (only the first result, after a single call, when a
+single result is requested)".  In the model the call log (`calls`: what each callback received) and
+the result list (`res.append(f(...))`) are separate accumulators of the loop; the theorem says they
+agree position by position, for every behaviour `result` of the callbacks. -/
+theorem emit_results_in_call_order (result : Call → Nat) (st : EState) (e : String) (s : Nat)
+    (a : List Nat) (kw : Kwargs) (h : st.silent = false) :
+    (wantsSingle kw = false →
+      (emit result st e s a kw).ret = .list ((emit result st e s a kw).calls.map result)) ∧
+    (wantsSingle kw = true →
+      ((emit result st e s a kw).calls = [] ∧ (emit result st e s a kw).ret = .list []) ∨
+      (∃ c, (emit result st e s a kw).calls = [c] ∧ (emit result st e s a kw).ret = .one (result c))) :=
+  Lemmas.emit_results_in_call_order result st e s a kw h
+
+/-- `connect(f)` without `event=`: a function called `on_<e>` (`e` non-empty, no newline) is
+registered for the event `e` (event.py:57-65, 101-103). -/
+theorem connect_event_from_name (r : ConnReq) (e : String) (h : r.event = none)
+    (hf : r.fname = "on_" ++ e) (hne : e ≠ "") (hnl : e.toList.all (· != '\n') = true) :
+    connectCb r = some ⟨e, r.sender, r.id, r.owner, r.last⟩ :=
+  Lemmas.connectCb_byname r e h hf hne hnl
+
+/-- `connect(f, event=e)`: the explicit event name wins, whatever the function is called. -/
+theorem connect_event_explicit (r : ConnReq) (e : String) (h : r.event = some e) :
+    connectCb r = some ⟨e, r.sender, r.id, r.owner, r.last⟩ :=
+  Lemmas.connectCb_explicit r e h
+
+/-- Conversely the derived event name is never empty and the function name is `on_` + the event name
+(+ possibly one trailing newline, which `$` tolerates); any other name makes `connect` raise
+(`connectCb = none`) and register nothing. -/
+theorem connect_name_shape (f e : String) (h : getOnName f = some e) :
+    e ≠ "" ∧ ∃ rest, f.toList = 'o' :: 'n' :: '_' :: (e.toList ++ rest) ∧ (rest = [] ∨ rest = ['\n']) :=
+  Lemmas.getOnName_some f e h
 
 /-- Progress reporter: for every history over {increment, set value, set maximum, set_complete,
 reset}, a completion is announced at a step exactly when that step is a value update reaching the
@@ -44,13 +105,31 @@ theorem reporter_announce_ok (ops : List ROp) :
   Lemmas.reporter_announce_ok ops
 
 /-! Non-vacuity -/
-example : erun EState.init
-    [.connect ⟨0, none, 1, none, true⟩, .connect ⟨0, some 5, 2, none, false⟩, .connect ⟨0, some 6, 3, none, false⟩,
-     .emit 0 5 false, .enterSilent, .enterSilent, .emit 0 5 false, .exitSilent, .emit 0 5 false, .exitSilent,
-     .unconnect [.obj 5], .emit 0 5 true]
-    = [⟨[2, 1], .list [2, 1]⟩, ⟨[], .none⟩, ⟨[], .none⟩, ⟨[1], .one 1⟩] := by decide
-example : WellNested [.enterSilent, .enterSilent, .emit 0 5 false, .exitSilent, .exitSilent] 0 := by
+example : erun stubResult EState.init
+    [.connect ⟨"on_e0", none, none, 1, none, true⟩, .connect ⟨"f", some "e0", some 5, 2, none, false⟩,
+     .connect ⟨"g", some "e0", some 6, 3, none, false⟩,
+     .emit "e0" 5 [7, 8] [("key", 4)], .enterSilent, .enterSilent, .emit "e0" 5 [] [], .exitSilent,
+     .emit "e0" 5 [] [], .exitSilent,
+     .unconnect [.obj 5], .emit "e0" 5 [9] [("single", 1), ("key", 3)]]
+    = [⟨[⟨2, 5, [7, 8], [("key", 4)]⟩, ⟨1, 5, [7, 8], [("key", 4)]⟩], .list [2052, 1052]⟩, ⟨[], .none⟩, ⟨[], .none⟩,
+       ⟨[⟨1, 5, [9], [("key", 3)]⟩], .one 1051⟩] := by decide
+example : WellNested [.enterSilent, .enterSilent, .emit "e0" 5 [] [], .exitSilent, .exitSilent] 0 := by
   simp [WellNested]
+-- `set_silent(False)` inside a context un-silences; the exit restores the value saved at the enter
+example : ExitsMatched [.setSilent true, .enterSilent, .setSilent false, .emit "e" 0 [] [], .exitSilent,
+      .emit "e" 0 [] []] 0 ∧
+    erun stubResult EState.init [.connect ⟨"on_e", none, none, 1, none, false⟩, .setSilent true, .enterSilent,
+      .setSilent false, .emit "e" 0 [] [], .exitSilent, .emit "e" 0 [] []] =
+      [⟨[⟨1, 0, [], []⟩], .list [1000]⟩, ⟨[], .none⟩] := by
+  refine ⟨by simp [ExitsMatched], by decide⟩
+example : silencedAfter [.enterSilent, .setSilent false] = false ∧
+    silencedAfter [.setSilent true, .enterSilent, .setSilent false, .exitSilent] = true ∧
+    silencedAfter [.enterSilent, .enterSilent, .exitSilent] = true ∧
+    silencedAfter [.enterSilent, .enterSilent, .exitSilent, .exitSilent] = false := by decide
+-- a connect whose function name does not start with `on_` raises and registers nothing
+example : connectCb ⟨"spam", none, none, 1, none, false⟩ = none ∧
+    connectCb ⟨"on_", none, none, 1, none, false⟩ = none ∧
+    connectCb ⟨"on_my_event", none, some 2, 1, none, true⟩ = some ⟨"my_event", some 2, 1, none, true⟩ := by decide
 example : (rrun RState.init [.setMax 1, .increment, .reset none, .increment]).map (·.2.2.2.complete)
     = [false, true, false, true] := by decide
 
